@@ -168,6 +168,11 @@ def compile_lines(rng, tier, corpus=()):
         for k in range(2, 5):
             ts = all_targets(5)
             smp += [f"compile 5 {k} {t}" for t in rng.sample(ts, 110)]
+            # every target whose left block is the identity (the BFS fallback of the V=I branch works hardest on Y-heavy right
+            # blocks), and the Y-heavy targets of the other branches
+            smp += [f"compile 5 {k} {'I' * k + ''.join(w)}" for w in __import__("itertools").product("IXYZ", repeat=5 - k) if set(w) != {"I"}]
+            smp += [f"compile 5 {k} {t}" for t in ts if t.count("Y") >= 4]
+        smp = list(dict.fromkeys(smp))
     for N in (6, 7, 8):
         for k in range(2, N):
             cnt = (400 if N < 8 else 150) if th else (26 if N < 8 else 10)
